@@ -25,6 +25,9 @@ SAVED = {
     "deep": "W {nested} | {todos}",
     "bob": "S count(note) W %bob G none O create",
     "grouped": "W (+proj1 | +proj2) !#shared",
+    "work-todo": "W #work o",                 # names are file names: dashes, dots and sub-directories are legal
+    "team/open": "W o %bob",
+    "diamond": "W {works} {nested}",          # `works` is reached along two paths (acyclic)
 }
 
 
@@ -63,6 +66,61 @@ def is_f13(case) -> bool:
     return any(has_top_level_bar(where_of(n)) for n in case.get("refs", [])) and case.get("juxtaposed", False)
 
 
+def _top_words(text):
+    out, depth, cur = [], 0, ""
+    for ch in text + " ":
+        if ch == "(":
+            depth += 1
+        elif ch == ")":
+            depth -= 1
+        if ch == " " and depth == 0:
+            if cur:
+                out.append(cur)
+            cur = ""
+        else:
+            cur += ch
+    return out
+
+
+def _pools(word):
+    return bool(re.fullmatch(r"[-ox~<>]+|P[0-9](-[1-9])?", word))
+
+
+def unparenthesised(name):
+    """the saved WHERE clause as zorg splices it (nested references expanded, grouped only when it contains ' | ')"""
+    q = SAVED[name]
+    words, on = [], False
+    for w in q.split(" "):
+        if w == "W":
+            on = True
+        elif w in ("O", "G"):
+            on = False
+        elif on:
+            words.append(w)
+    text = " ".join(words)
+
+    def sub(m):
+        t = unparenthesised(m.group(1))
+        return "(" + t + ")" if " | " in t else t
+
+    return re.sub(r"\{(.*?)\}", sub, text)
+
+
+def is_f23(case) -> bool:
+    """Known finding F23: kind / priority atoms of a saved WHERE clause that is spliced without parentheses pool with the
+    kind / priority atoms of the surrounding group (or of another reference) instead of being conjoined with them."""
+    if not case.get("refs"):
+        return False
+    groups = []
+    for p in case.get("parts", []):
+        if p.startswith("{"):
+            t = unparenthesised(p[1:-1])
+            groups.append([w for w in _top_words(t) if _pools(w)] if " | " not in t else [])
+        else:
+            groups.append([p] if _pools(p) else [])
+    return sum(1 for g in groups if g) >= 2
+
+
 def references(tier, seed):
     from zorg.service.swog import execute
     from zorg.service.swog._saved_queries import expand_saved_queries
@@ -85,7 +143,7 @@ def references(tier, seed):
             alt = rng.random() < 0.25
             q = " ".join(parts) + (" | #work" if alt else "")
             explicit = " ".join(p if not p.startswith("{") else "(" + where_of(p[1:-1]) + ")" for p in parts) + (" | #work" if alt else "")
-            case = {"query": q, "explicit": explicit, "refs": refs, "juxtaposed": len(parts) > 1}
+            case = {"query": q, "explicit": explicit, "refs": refs, "juxtaposed": len(parts) > 1, "parts": parts}
             try:
                 a = zids(execute(lab.zdir, lab.db_url, f"S note W {q} G none"))
                 b = zids(execute(lab.zdir, lab.db_url, f"S note W {explicit} G none"))
@@ -108,7 +166,7 @@ def references(tier, seed):
                 fails.append({"query": q, "refs": [], "error": f"unexpected {type(e).__name__}: {str(e)[:100]}"})
             if expand_saved_queries(lab.zdir, q) is not None:
                 fails.append({"query": q, "refs": [], "error": "expand_saved_queries did not return None for a missing saved query"})
-    return {"name": "references", "bound": f"{n} referencing queries (0-2 ordinary atoms + 1-2 references, optionally an alternative) over 7 saved queries (alternatives, nested references depth 3, S/O/G clauses) on a fixture index; + 3 missing-reference queries",
+    return {"name": "references", "bound": f"{n} referencing queries (0-2 ordinary atoms + 1-2 references, optionally an alternative) over 10 saved queries (names with '-' and '/', a diamond-shaped reference graph) (alternatives, nested references depth 3, S/O/G clauses) on a fixture index; + 3 missing-reference queries",
             "evaluations": n + 3, "distinct_nontrivial": nontriv, "failures": fails, "samples": samples, "replay_fn": "replay_ref"}
 
 
